@@ -8,7 +8,7 @@ struct = list of field values, array = {"sh":[..],"it":[.. C index order ..]}, r
 Input form: as normal form, but a reference is {"r":"null"} | {"r":"alias","at","tid"} | {"r":"new","tid","v"} |
 {"r":"foreign","tid","src":[b,a]} and a scalar may be [] (left unspecified).
 """
-import itertools, json
+import copy, itertools, json
 import numpy as np
 from . import common as C
 
@@ -113,6 +113,46 @@ class Namespace:
     def fname(self, i):
         return f"f{i}"
 
+    def make_default(self, tx, i):
+        """a DECLARED default (xo.Field(type, default=...)) for field i of struct tx, or None: (input form, python data).
+        Scalars, static arrays of scalars, and references to such arrays (the default data becomes a referent of its own)."""
+        import random as _r
+        rng = _r.Random(f"default:{getattr(self, 'default_seed', 0)}:" + key(tx) + f":{i}")
+        f = tx["f"][i]
+        if rng.random() < getattr(self, "no_default_p", 0.45):
+            return None
+        if f["k"] == "sc":
+            return gen_scalar(f["np"], rng)
+        plain = lambda a: a["k"] == "arr" and a["it"]["k"] == "sc" and all(d >= 0 for d in a["sh"]) and len(a["sh"]) == 1
+
+        def arrval(a):
+            vs = [gen_scalar(a["it"]["np"], rng) for _ in range(a["sh"][0])]
+            return {"sh": list(a["sh"]), "it": [v[0] for v in vs]}, [v[1] for v in vs]
+        if plain(f):
+            return arrval(f)
+        if f["k"] == "ref" and plain(f["to"]):
+            v, py = arrval(f["to"])
+            return {"r": "new", "tid": 0, "v": v}, py
+        return None
+
+    def default_of(self, tx, i):
+        """input form of what the constructor supplies for an omitted field i of struct tx (None: the field cannot be omitted)"""
+        self.cls(tx)
+        d = getattr(self, "defaults", {}).get(key(tx), {}).get(i)
+        if d is not None:
+            return copy.deepcopy(d)
+        f = tx["f"][i]
+        if f["k"] == "sc":
+            return [0] * f["w"]
+        if f["k"] == "arr" and f["it"]["k"] == "sc" and all(x >= 0 for x in f["sh"]):
+            return {"sh": list(f["sh"]), "it": [[0] * f["it"]["w"] for _ in range(int(np.prod(f["sh"])))]}
+        if f["k"] in ("ref", "uref"):
+            return {"r": "null"}
+        if f["k"] == "struct" and is_static(f):
+            sub = [self.default_of(f, j) for j in range(len(f["f"]))]
+            return None if any(x is None for x in sub) else sub
+        return None
+
     def cls(self, tx):
         k = key(tx)
         if k in self.cache:
@@ -124,7 +164,17 @@ class Namespace:
         elif kind == "str":
             c = xo.String
         elif kind == "struct":
-            data = {self.fname(i): self.cls(f) for i, f in enumerate(tx["f"])}
+            data, dfl = {}, {}
+            for i, f in enumerate(tx["f"]):
+                fc = self.cls(f)
+                d = self.make_default(tx, i) if getattr(self, "with_defaults", False) else None
+                if d is not None:
+                    data[self.fname(i)] = xo.Field(fc, default=d[1])
+                    dfl[i] = d[0]
+                else:
+                    data[self.fname(i)] = fc
+            self.defaults = getattr(self, "defaults", {})
+            self.defaults[k] = dfl
             c = type(xo.Struct)(f"{self.prefix}S{self.fresh()}", (xo.Struct,), data)
         elif kind == "arr":
             it = self.cls(tx["it"])
@@ -237,9 +287,13 @@ class Gen:
             sh = [max(d, 1) if (i < len(sh) - 1 and tx["sh"][i] < 0) else d for i, d in enumerate(sh)]
         return sh
 
-    def value(self, tx, b=None, like=None, _top=True, _inarr=False, _noxobj=False):
-        """like: an existing input-form value whose every dynamic size must be kept (fitting assignment)"""
+    def value(self, tx, b=None, like=None, _top=True, _inarr=False, _noxobj=False, _keep=None):
+        """like: an existing input-form value whose every dynamic size must be kept (fitting assignment)
+        _keep: None at the top; True while the path from the assigned element down to here consists of structs only (a dict
+        assigned to an existing struct sets the fields it NAMES, recursively; the others keep their values)"""
         rng, k = self.rng, tx["k"]
+        if _keep is None:
+            _keep = bool(_top and like is not None and k == "struct" and getattr(self, "keep", None) is not None)
         if k == "sc":
             return gen_scalar(tx["np"], rng)
         if k == "str":
@@ -283,20 +337,24 @@ class Gen:
                         rng.shuffle(vals)
                         for i, w in zip(idxs, vals):
                             like[i] = w
-            vs = [self.value(f, b, None if like is None else like[i], False, _inarr) for i, f in enumerate(tx["f"])]
+            vs = [self.value(f, b, None if like is None else like[i], False, _inarr, False, _keep and f["k"] == "struct") for i, f in enumerate(tx["f"])]
             omit = set()
+            if _keep and like is not None and rng.random() < 0.35:
+                # a PARTIAL dictionary: the fields it does not name keep their current values
+                for i, f in enumerate(tx["f"]):
+                    if rng.random() < 0.4:
+                        kept = self.keep(f, like[i])
+                        if kept is not None:
+                            vs[i] = (kept, None)
+                            omit.add(i)
             if like is None and getattr(self, "omit_p", 0.08):
                 # fields left out of the dictionary: the constructor supplies the natural default (zero, zeros, no referent)
                 for i, f in enumerate(tx["f"]):
-                    if rng.random() < getattr(self, "omit_p", 0.08):
-                        if f["k"] == "sc":
-                            vs[i] = ([0] * f["w"], None)
-                        elif f["k"] == "arr" and f["it"]["k"] == "sc" and all(d >= 0 for d in f["sh"]):
-                            vs[i] = ({"sh": list(f["sh"]), "it": [[0] * f["it"]["w"] for _ in range(int(np.prod(f["sh"])))]}, None)
-                        elif f["k"] in ("ref", "uref"):
-                            vs[i] = ({"r": "null"}, None)
-                        else:
+                    if rng.random() < getattr(self, "omit_p", 0.08) * (3 if getattr(self.ns, "with_defaults", False) else 1):
+                        dv = self.ns.default_of(tx, i)       # the declared default of the field, else the natural one (zero, zeros, no referent)
+                        if dv is None:
                             continue
+                        vs[i] = (dv, None)
                         omit.add(i)
             return [v[0] for v in vs], {self.ns.fname(i): v[1] for i, v in enumerate(vs) if i not in omit}
         if k == "arr":
@@ -313,6 +371,13 @@ class Gen:
                 # built from its dimensions: the items are left unspecified (whatever the memory holds)
                 dims = tuple(int(d) for d, decl in zip(sh, tx["sh"]) if decl < 0)
                 return {"sh": sh, "it": [[] for _ in range(n)]}, (Dims(dims) if len(dims) > 1 else dims[0])
+            if (it["k"] == "struct" and is_static(it) and like is None and not _inarr and not _noxobj and self.dims_p and rng.random() < self.dims_p * 1.5
+                    and any(d < 0 for d in tx["sh"]) and n <= 6):
+                # built from its dimensions: every item is the DEFAULT item (each with referents of its own)
+                items = [[self.ns.default_of(it, j) for j in range(len(it["f"]))] for _ in range(n)]
+                if all(x is not None for row in items for x in row):
+                    dims = tuple(int(d) for d, decl in zip(sh, tx["sh"]) if decl < 0)
+                    return {"sh": sh, "it": items}, (Dims(dims) if len(dims) > 1 else dims[0])
             if it["k"] == "sc" and self.np_forms and not _inarr and rng.random() < 0.5:     # (a list of ndarrays is not a promised input form)
                 a = np.array([np.frombuffer(bytes(v[0]), dtype=it["np"].lower())[0] for v in vs], dtype=it["np"].lower()).reshape(sh)
                 form = rng.choice(["C", "F", "strided"]) if len(sh) > 1 or n > 1 else "C"
